@@ -273,6 +273,47 @@ def w_history(case, opts):
     return {"steps": out}
 
 
+# (setup, failing operation - caught by the script or ending the evaluation -, repair, reuse): the context that ran the failing operation
+# must afterwards answer `reuse` exactly like a twin context that never ran it (built-ins keep no state across a failed call)
+REUSE_SCENARIOS = [
+    ("stringify-cycle", "var a = {name: 'a'}; a.self = a;", "JSON.stringify(a)", "a.self = null;", "[JSON.stringify(a), JSON.stringify({wrap: [a], n: 1}), JSON.stringify([a, a])]"),
+    ("stringify-getter-throws", "var g = {get p() { if (g.bad) { throw new Error('x'); } return 1; }, q: [1]}; g.bad = true;", "JSON.stringify({in: g})", "g.bad = false;", "[JSON.stringify(g), JSON.stringify({in: g})]"),
+    ("parse-error", "var t = '{\"k\": [1, 2]}';", "JSON.parse(t + '}')", "", "[JSON.stringify(JSON.parse(t)), JSON.parse('[1]').length]"),
+    ("sort-comparator-throws", "var s = [3, 1, 2];", "s.sort(function () { throw new Error('c'); })", "s = [3, 1, 2];", "[s.sort().join(), [5, 4].sort(function (x, y) { return x - y; }).join()]"),
+    ("forEach-throws", "var f = [1, 2, 3], seen = [];", "f.forEach(function (v) { if (v === 2) { throw new Error('f'); } })", "", "f.forEach(function (v) { seen.push(v); }); [seen.join(), f.map(function (v) { return v * 2; }).join()]"),
+    ("replace-fn-throws", "var re = /a/g, txt = 'aXa';", "txt.replace(re, function () { throw new Error('r'); })", "", "[re.lastIndex, txt.replace(re, '-'), re.lastIndex, re.test('a'), re.lastIndex]"),
+    ("regexp-ctor-error", "", "new RegExp('(')", "", "[new RegExp('(a)').exec('a')[1], /x/.test('x')]"),
+    ("function-ctor-error", "", "new Function('return (')", "", "[new Function('a', 'return a + 1')(1), (0, eval)('2 + 2')]"),
+    ("valueOf-throws-in-arith", "var vo = {valueOf: function () { if (vo.bad) { throw new Error('v'); } return 4; }}; vo.bad = true;", "vo * 2 + [vo] * 1", "vo.bad = false;", "[vo * 2, vo + 1, vo < 5]"),
+    ("setter-throws", "var st = {_v: 1, set v(x) { if (x < 0) { throw new RangeError('neg'); } this._v = x; }, get v() { return this._v; }};", "st.v = -1", "", "[st.v, (st.v = 5), st.v, Object.keys(st).join()]"),
+    ("reduce-empty", "var em = [];", "em.reduce(function (a, b) { return a + b; })", "em.push(1, 2);", "[em.reduce(function (a, b) { return a + b; }), em.length]"),
+    ("typed-array-bad-length", "", "new Int8Array(-1)", "", "[new Int8Array(2).length, new Int8Array([1, 2]).join()]"),
+    ("array-write-beyond-end", "var aw = [1];", "aw[5] = 1", "", "[aw.length, (aw[1] = 2), aw.join()]"),
+    ("repeat-range-error", "", "'x'.repeat(-1)", "", "['x'.repeat(3), 'ab'.repeat(0)]"),
+    ("deep-recursion-caught-outside", "function rec(n) { return rec(n + 1) + 1; }", "rec(0)", "", "[(function f(n) { return n ? f(n - 1) + 1 : 0; })(20), typeof rec]"),
+    ("callback-throws-in-nested-natives", "var nn = [[1, 2], [3]];", "nn.map(function (r) { return r.filter(function (x) { if (x === 3) { throw new Error('n'); } return true; }); })", "", "[nn.map(function (r) { return r.length; }).join(), nn.length]"),
+    ("stringify-then-memory-limit", "var big = []; for (var bi = 0; bi < 50; bi++) { big.push({i: bi}); }", "JSON.stringify(big); (function r() { return r(); })()", "", "[JSON.stringify(big).length > 100, JSON.stringify([big[0], big[0]])]"),
+]
+
+
+def w_reuse(case, opts):
+    from vf import engine as E
+    out = {}
+    for variant in ("caught", "uncaught", "twin"):
+        ctx = E.new_context(None, 200000)
+        E.run_js(case["setup"] or "0", {"log": False}, ctx=ctx)
+        if variant == "caught":
+            r = E.run_js("var failed = false; try { %s; } catch (e) { failed = true; } failed" % case["fail"], {"log": False, "max_steps": 400000}, ctx=ctx)
+            out["caught_failed"] = [r["out"], r.get("py")]
+        elif variant == "uncaught":
+            r = E.run_js(case["fail"] + ";", {"log": False, "max_steps": 400000}, ctx=ctx)
+            out["uncaught_out"] = r["out"]
+        E.run_js(case["repair"] or "0", {"log": False}, ctx=ctx)
+        r = E.run_js(case["reuse"], {"log": False}, ctx=ctx)
+        out[variant] = [r["out"], r.get("py"), (r.get("err") or {}).get("name")]
+    return out
+
+
 def w_isolation(case, opts):
     from vf import engine as E
     a, b = E.new_context(), E.new_context(None, 100000)
@@ -464,6 +505,8 @@ def main(ctx):
     try:
         hres = ep.map({"mod": "checks.C12", "fn": "w_history"}, [c for c, _ in hist], batch=10, timeout=300)
         fres = ep.map({"mod": "checks.C12", "fn": "w_fault"}, fscripts, batch=1, timeout=900)
+        ucases = [{"name": n, "setup": su, "fail": fa, "repair": rp, "reuse": ru} for n, su, fa, rp, ru in REUSE_SCENARIOS]
+        ures = ep.map({"mod": "checks.C12", "fn": "w_reuse"}, ucases, batch=3, timeout=300)
         ires = ep.map({"mod": "checks.C12", "fn": "w_isolation"}, [{"mutations": CREATED_MUTATIONS + MUTATIONS, "probe": PROBE}], batch=1, timeout=300)
     finally:
         ep.close()
@@ -552,6 +595,22 @@ def main(ctx):
                                                                    "monitor": "fault enumeration through the step hook"})
                 break
         ctx.nontrivial(h(fs["stmts"]))
+    # ---- a failed built-in leaves nothing behind
+    for c, r in zip(ucases, ures):
+        ctx.count()
+        if not r or "twin" not in r:
+            ctx.violation(("reuse-worker-failed", c["name"]), {"case": c, "detail": r})
+            continue
+        if r.get("uncaught_out") == "ok" and r.get("caught_failed") == ["ok", ["b", False]]:
+            ctx.violation(("reuse", "scenario does not fail any more", c["name"]), {"case": c, "observed": r})   # (harness drift guard)
+            continue
+        bad = [v for v in ("caught", "uncaught") if r[v] != r["twin"]]
+        if r["twin"][0] != "ok":
+            bad.append("twin itself failed")
+        if bad:
+            ctx.violation(("reuse-after-failed-operation", c["name"], bad[0]), {"case": c, "observed": r, "monitor": "same context after a failed operation vs a twin that never ran it"})
+        else:
+            ctx.nontrivial(("reuse", c["name"]))
     # ---- isolation
     iso = ires[0]
     if not iso or "muts" not in iso:
